@@ -543,7 +543,7 @@ func (ex *Exec) ghostAssignedIn(li *loopInfo, g string) bool {
 				if i := strings.Index(key, "."); i >= 0 {
 					short = key[i+1:]
 				}
-				if oc.Callee != key && oc.Callee != short {
+				if !oncallMatches(oc, key, short) {
 					continue
 				}
 				if oc.Ord != 0 && ex.callSiteOrd(b.Parent(), ci) != oc.Ord {
